@@ -891,6 +891,8 @@ class Models:
     # names of the RawLRU fields of composite caches whose capacity equals the cache's resident bound `size`
     # (filled in by rules/lib/composite.py from the constructors; empty = no room reasoning)
     resident_bound_fields = frozenset()
+    # P1 relies on K's Eq/Hash being consistent (a stored key is found again). Memory safety must not: C03.R7 re-runs with this off.
+    assume_consistent_eq = True
     # scalar fields of a composite that hold the same value as the cap of one of its lists, e.g. protected_size -> protected
     # (filled in by rules/lib/composite.py from the constructors)
     cap_alias = {}
@@ -1542,7 +1544,7 @@ class Models:
         own = self._node_of_key(ks)
         cid = st.fresh()
         known = st.member.get((X, ks))
-        if known is None and own is not None and self._is_entry(st, X, own):
+        if known is None and own is not None and self.assume_consistent_eq and self._is_entry(st, X, own):
             # pruning rule P1 applied to a node's own key: a list member's key is in that list's index (I_list)
             known = True
         if known is None and isinstance(ks, tuple) and ks[0] == "kv":
